@@ -54,10 +54,11 @@ EXPECTED_PROBES = ["ndim1", "ndim2", "ndim3", "unset_cell_read", "zero_row_cell"
                    "field_assigned_from_field_view_other_field", "flat_restore",
                    "flat_restore_single_populated_cell", "setter_fields", "setter_units",
                    "rejected_fields_setter_count", "rejected_fields_setter_dup", "rejected_units_setter_count",
-                   "bigint_cells", "cells_float32", "cells_special", "cells_complex", "copy_via_deepcopy", "copy_via_pickle"]
+                   "bigint_cells", "cells_float32", "cells_special", "cells_complex", "tricky_field_names",
+                   "field_removed_and_re_added", "copy_via_deepcopy", "copy_via_pickle"]
 
 OPS = ["set_cell", "get_cell", "slice_get", "slice_set", "field_op", "flatten", "set_flat", "flat_restore",
-       "rename",
+       "rename", "remove_readd",
        "add_fields", "remove_fields", "copy_check", "metadata", "second_vector", "rejected",
        "recreate", "continue_on_copy"]
 _V = None
@@ -141,6 +142,8 @@ def _gen_op(r, kinds):
                 # what stands on the right-hand side: a fresh array, a list, the view of ANOTHER field
                 # of the same vector, or a field view of an independent copy
                 "src": r.fork("src").pick(["array", "array", "list", "view_same", "view_other"])}
+    if k == "remove_readd":
+        return {"op": k, "f": r.randrange(100)}
     if k == "rename":
         # the fields / units property setters: same count, unique names
         return {"op": k, "which": r.pick(["fields", "fields", "units"]), "tag": r.randrange(1000),
@@ -351,6 +354,12 @@ def run(plan):
     def create(op):
         shape, nf = tuple(op["shape"]), op["nf"]
         fields = [f"f{j}" for j in range(nf)] if op["named"] else None
+        if fields and op["fill"] % 5 == 0:
+            # names that are prefixes of each other, contain spaces / unicode, or look like numbers
+            pool = ["a", "ab", "a b", "\u00e9", "0", "abc", "A", "_a", "a.b", "f", "field", "field_0", "x" * 40,
+                    "1", "-", " ", "ba", "aa", "b", "c", "d", "e", "g"]
+            fields = pool[:nf]
+            bump(probes, "tricky_field_names")
         units = [f"u{j}" for j in range(nf)] if op["units"] else None
         bump(probes, f"ndim{len(shape)}")
         if max(shape) >= 8:
@@ -723,6 +732,30 @@ def run(plan):
                             cur += c.shape[0]
                     n_mut[0] += 1
                 check_all("set_flat")
+            elif k == "remove_readd":
+                # remove a field and add a field of the SAME name again: it comes back as the last
+                # column, zero-filled, with the default unit
+                if m.nf < 2 or big or _REGIME[0] == "complex":
+                    continue
+                j = op["f"] % m.nf
+                name = m.fields[j]
+                try:
+                    v.remove_fields([name])
+                    v.add_fields([name])
+                except Exception as e:
+                    viol("op_raised", f"remove_fields/add_fields({name!r}) raised {e!r}",
+                         f"op_raised:remove_readd:{sigs}")
+                    resync("v")
+                    continue
+                bump(probes, "field_removed_and_re_added")
+                m.fields = [f for q, f in enumerate(m.fields) if q != j] + [name]
+                m.units = [u for q, u in enumerate(m.units) if q != j] + ["none"]
+                for idx, c in m.cells.items():
+                    if c is not None:
+                        kept = np.delete(c, j, axis=1)
+                        m.cells[idx] = np.hstack([kept, np.zeros((c.shape[0], 1))])
+                n_mut[0] += 1
+                check_all("remove_readd")
             elif k == "rename":
                 bump(probes, "setter_" + op["which"])
                 if op["which"] == "fields":
